@@ -338,17 +338,22 @@ theorem quadReal_bZeroImag_conj (sqrt : K → K) (eps a b c : K) (h : branchOf e
   unfold quadReal; rw [h]; simp [Cx.conj]
 
 /-- kind-K contract soundness: whatever list of roots the vendored solver returns, if the exact-rational
-acceptance predicate says yes then there are exactly degree-many roots and each satisfies the residual bound. -/
+acceptance predicate says yes then there are exactly degree-many roots and each satisfies the (conditioning-capped)
+residual bound `rootAccept` computes. -/
 theorem polyAccept_sound (tol : Rat) (coeffs roots : List (Cx Rat)) (h : polyAccept tol coeffs roots = true) :
-    roots.length + 1 = coeffs.length ∧
-    ∀ z ∈ roots, Cx.normSq (hornerCx coeffs z) * (condDen coeffs z * condDen coeffs z) ≤
-      (tol * scaleAt coeffs z * (condDen coeffs z + scaleAt coeffs z)) *
-      (tol * scaleAt coeffs z * (condDen coeffs z + scaleAt coeffs z)) := by
+    roots.length + 1 = coeffs.length ∧ ∀ z ∈ roots, rootAccept tol coeffs z = true := by
   unfold polyAccept at h
   simp only [Bool.and_eq_true, beq_iff_eq, List.all_eq_true] at h
-  refine ⟨h.1, fun z hz => ?_⟩
-  have := h.2 z hz
-  simpa [rootAccept] using this
+  exact ⟨h.1, h.2⟩
+
+/-- what acceptance of a root means when the conditioning denominator vanishes (multiple root or `z = 0`): the residual is
+still bounded by the capped tolerance — in particular `[0,0,0]` is NOT accepted for `(x−1)(x−2)(x−3)` -/
+theorem rootAccept_degenerate (tol : Rat) (coeffs : List (Cx Rat)) (z : Cx Rat) (hD : condDen coeffs z ≤ 0)
+    (h : rootAccept tol coeffs z = true) :
+    Cx.normSq (hornerCx coeffs z) ≤ (tol * scaleAt coeffs z * 1000001) * (tol * scaleAt coeffs z * 1000001) := by
+  unfold rootAccept at h
+  simp only [hD, if_true, decide_eq_true_eq] at h
+  exact h
 
 /-- non-vacuity: a concrete `sqrt` specification instance is satisfiable on the inputs used (2x² − 8 has
 disc = 64 = 8·8), and its hypotheses select the `bZeroReal` branch -/
